@@ -280,6 +280,34 @@ def big_program(draw, index=None):
 
 
 @st.composite
+def wide_program(draw):
+    """few calls, each with hundreds of channel objects in a handful of groups, and objects carrying hundreds of properties"""
+    ngroups = draw(st.integers(1, 6))
+    nch = draw(st.integers(100, 320))
+    form = draw(st.sampled_from(['nd:i2', 'nd:f4', 'list:str', 'nd:u1']))
+    calls = []
+    for ci in range(draw(st.integers(1, 2))):
+        objs = [{'kind': 'root', 'props': [['rp%d' % i, 'int', i * 7 - 3] for i in range(draw(st.sampled_from([0, 5, 300])))]}]
+        for g in range(ngroups):
+            objs.append({'kind': 'group', 'group': 'grp%d' % g,
+                         'props': [['gp%d' % i, 'str', 'v%d.%d' % (g, i)] for i in range(draw(st.sampled_from([0, 2, 120])))]})
+        order = list(range(nch))
+        if ci and draw(st.booleans()):
+            order = order[::-1]
+        for k in order:
+            if form == 'list:str':
+                vals = ['s%d.%d' % (k, ci)]
+            else:
+                size = np.dtype(form[3:]).itemsize
+                vals = bytes((k * 5 + ci + j) % 251 for j in range(size * (1 + k % 3)))
+            objs.append({'kind': 'channel', 'group': 'grp%d' % (k % ngroups), 'channel': 'ch%d' % k, 'form': form,
+                         'values': vals, 'props': [['cp', 'int', k]] if k % 17 == 0 else []})
+        calls.append(objs)
+    return {'version': draw(st.sampled_from([4712, 4713])), 'dest': draw(st.sampled_from(['path', 'stream'])),
+            'index': False, 'sessions': [calls], 'rewrite': None, 'reuse_objects': False}
+
+
+@st.composite
 def many_segment_program(draw):
     """100-140 write_segment calls in one session: channels a and b get equally long arrays in every call up to a call
     k >= 97, after which their lengths differ (readers that summarise per-segment lengths must not mix the two up)"""
